@@ -513,10 +513,12 @@ pub mod verif_hooks {
             bound_nsec: i64,
             as_of: libc::timespec,
             status: ChronyClockStatus,
+            bound_measured: bool,
         ) -> Self {
             let mut updater = ShmUpdater::new(writer, max_drift_ppb);
             updater.bound_nsec = bound_nsec;
             updater.as_of = as_of;
+            updater.bound_measured = bound_measured;
             updater.shm_clock_state = updater.shm_clock_state.apply_chrony(status);
             Updater(updater)
         }
